@@ -220,11 +220,17 @@ impl MessageCache {
         &mut self,
         message_id: &MessageId,
     ) -> Option<(RawMessage, HashSet<PeerId>)> {
-        // We only remove the message from msgs and iwant_count and keep the message_id in the
-        // history vector. Zhe id in the history vector will simply be ignored on popping.
-
         self.iwant_counts.remove(message_id);
-        self.msgs.remove(message_id)
+        let removed = self.msgs.remove(message_id);
+        if removed.is_some() {
+            // Also forget the history entry. If the same message id is put again while a stale
+            // entry is still in the history, the stale entry would make the id show up twice in
+            // the gossip and evict the new message early when it is shifted out.
+            for entries in &mut self.history {
+                entries.retain(|entry| &entry.mid != message_id);
+            }
+        }
+        removed
     }
 }
 
